@@ -76,6 +76,15 @@ pub fn run_gen(tier: &str, seed: u64, out: &mut Out) {
                 _ => "NO-MARKERS".to_string(),
             };
             out.case(&["attrgen", kind, &enc(name), &ast::escaped_chars_of(&text), &sx], &res);
+            if kind == "attr" && name == "a" {
+                // the stringifier's expression printer (C14)
+                let printed = g.stringify_tmpl("p").unwrap_or_default();
+                let r = match (printed.strip_prefix("<v a=\""), printed.strip_suffix("\"/>")) {
+                    (Some(_), Some(_)) => enc(&printed["<v a=\"".len()..printed.len() - "\"/>".len()]),
+                    _ => format!("UNEXPECTED {}", enc(&printed)),
+                };
+                out.case(&["strexpr", &ast::escaped_chars_of(&text), &sx], &r);
+            }
         }
     }
 }
